@@ -17,7 +17,8 @@ fn rust_collision(s: &ASchema) -> bool {
     s.types.iter().any(|t| matches!(t, AType::Enum { values, .. } if values.iter().any(|v| v == "self") && values.iter().any(|v| v == "Self")))
 }
 
-fn fixed_pairs() -> Vec<(ASchema, ADoc)> {
+/// (schema, document, enums the variant MUST declare extern - `None`: a random subset)
+fn fixed_pairs() -> Vec<(ASchema, ADoc, Option<Vec<&'static str>>)> {
     let f = |n: &str, t: ATy| AField { name: n.into(), ty: t, dep: None };
     let obj = |name: &str, fields: Vec<AField>| AType::Object { name: name.into(), implements: vec![], fields, ext_fields: vec![] };
     let fld = |n: &str, sub: Vec<ASel>| ASel::Field { alias: None, name: n.into(), sub };
@@ -43,7 +44,34 @@ fn fixed_pairs() -> Vec<(ASchema, ADoc)> {
         }],
         frags: vec![],
     };
-    vec![(schema, doc)]
+    // three enums, all used (as fields and as variables); the variant declares a proper SUBSET extern: the first declared, the
+    // middle one, the first and the last - the others must still be generated
+    let enum_schema = ASchema {
+        types: vec![
+            AType::Enum { name: "Alpha".into(), values: vec!["A1".into(), "A2".into()] },
+            AType::Enum { name: "Beta".into(), values: vec!["B1".into(), "B2".into()] },
+            AType::Enum { name: "Gamma".into(), values: vec!["G1".into(), "G2".into()] },
+            obj("Query", vec![f("alpha", ATy::named("Alpha")), f("beta", nn(ATy::named("Beta"))), f("gammas", ATy::List(Box::new(nn(ATy::named("Gamma")))))]),
+        ],
+        query: Some("Query".into()),
+        mutation: None,
+        subscription: None,
+    };
+    let enum_doc = ADoc {
+        ops: vec![AOp {
+            kind: "query",
+            name: "Enums".into(),
+            vars: vec![AVar { name: "a".into(), ty: ATy::named("Alpha"), default: None }, AVar { name: "g".into(), ty: ATy::named("Gamma"), default: None }],
+            sels: vec![fld("alpha", vec![]), fld("beta", vec![]), fld("gammas", vec![])],
+        }],
+        frags: vec![],
+    };
+    vec![
+        (schema, doc, None),
+        (enum_schema.clone(), enum_doc.clone(), Some(vec!["Alpha"])),
+        (enum_schema.clone(), enum_doc.clone(), Some(vec!["Beta"])),
+        (enum_schema, enum_doc, Some(vec!["Alpha", "Gamma"])),
+    ]
 }
 
 pub fn run(a: &Args) -> i32 {
@@ -79,12 +107,12 @@ pub fn run(a: &Args) -> i32 {
         attempts += 1;
         let fixed_case = fixed.next();
         let is_fixed = fixed_case.is_some();
-        let (schema, doc) = match fixed_case {
+        let (schema, doc, forced_externs) = match fixed_case {
             Some(x) => x,
             None => {
                 let schema = random_schema(&mut rng, &SchemaKnobs::default());
                 let doc = random_doc(&mut rng, &schema, &OpKnobs::default());
-                (schema, doc)
+                (schema, doc, None)
             }
         };
         let sdl = schema.to_sdl(&RenderKnobs::default());
@@ -92,7 +120,7 @@ pub fn run(a: &Args) -> i32 {
         let no_serialize = doc.has_recursive_fragment();
         let mut base = Opts::harness();
         base.other_variant = rng.chance(40);
-        base.skip_none = rng.chance(40);
+        base.skip_none = forced_externs.is_some() || rng.chance(40);
         if no_serialize {
             base.response_derives = Some("Debug,PartialEq".into());
         }
@@ -142,12 +170,20 @@ pub fn run(a: &Args) -> i32 {
         }
         let mut prelude_extra = String::new();
         // (the consumer-supplied enum is a copy of the baseline's: it carries the baseline's derives)
-        if !var.normalization_rust && var.response_derives == base.response_derives && rng.chance(60) {
+        if forced_externs.is_some() {
+            var.normalization_rust = false;
+            var.response_derives = base.response_derives.clone();
+            var.variables_derives = base.variables_derives.clone();
+        }
+        if !var.normalization_rust && var.response_derives == base.response_derives && (forced_externs.is_some() || rng.chance(60)) {
             let sources = vcore::extract::enum_sources(&btokens);
             let mut names: Vec<String> = sources.iter().map(|s| s.1.clone()).collect();
             names.sort();
             names.dedup();
-            let chosen: Vec<String> = names.into_iter().filter(|_| rng.chance(60)).collect();
+            let chosen: Vec<String> = match &forced_externs {
+                Some(f) => names.into_iter().filter(|n| f.contains(&n.as_str())).collect(),
+                None => names.into_iter().filter(|_| rng.chance(60)).collect(),
+            };
             if !chosen.is_empty() {
                 for name in &chosen {
                     if let Some(src) = sources.iter().find(|s| &s.1 == name) {
@@ -157,6 +193,14 @@ pub fn run(a: &Args) -> i32 {
                 var.extern_enums = chosen;
                 changed += 1;
                 rep.count("option:extern-enums");
+            }
+        }
+        // the variant delivered the way the derive delivers it (forced pairs, a quarter of the single-operation pairs): the
+        // options are the text of a `#[graphql(...)]` attribute read by the derive's own option builder - a list-valued key
+        // (`extern_enums(..)`) next to a bare flag (`skip_serializing_none`) must leave both in force
+        if doc.ops.len() == 1 && var.scalars_module.is_none() && (forced_externs.is_some() || rng.chance(25)) {
+            if super::wire::deliver_by_derive(&mut var, &doc.ops[0].name, &qtext, &ctx, pairs.len(), &mut rng) {
+                rep.count("delivery:derive-attribute");
             }
         }
         let rv = ctx.run(&sdl, false, &qtext, &var);
